@@ -5,6 +5,7 @@ C19 -- tagged runs execute exactly the tagged tests; listing runs none.
 import importlib.util
 import io
 import os
+import re
 import subprocess
 import sys
 import unittest
@@ -78,7 +79,21 @@ def argv_desc(draw, classes):
         [], ['-1'], ['--tagged'], ['-0'], ['--istagged'], ['-1', '-0'],
         ['--tagged', '--istagged'], ['-1v'], ['-v1'], ['-1W'], ['-01'],
         ['-1', '--istagged'], ['-0', '--tagged'], ['-1'], ['--tagged'],
-        ['-0']]))
+        ['-0'], ['cluster'], ['cluster'], ['cluster']]))
+    if tdda == ['cluster']:
+        # one single-dash group mixing unittest's letters with tdda's, in
+        # any arrangement: -v1f, -f0v, -1W, -qW1 ...
+        letters = draw(st.lists(st.sampled_from('vqfb'), max_size=2,
+                                unique=True)) + draw(st.lists(
+                                    st.sampled_from('10W'), min_size=1,
+                                    max_size=2, unique=True))
+        tdda = ['-' + ''.join(draw(st.permutations(letters)))]
+        if draw(st.booleans()):
+            ul = draw(st.lists(st.sampled_from('vqfb'), min_size=2,
+                               max_size=2, unique=True))
+            tl = draw(st.lists(st.sampled_from('10W'), min_size=1,
+                               max_size=2, unique=True))
+            tdda = ['-' + ul[0] + ''.join(tl) + ul[1]]
     after = draw(st.lists(st.sampled_from(UNITTEST_FLAGS), max_size=2,
                           unique=True))
     after = [f for f in after if f not in before]
@@ -138,9 +153,10 @@ def valid(case):
         if any(n not in names for n in a['names']):
             return False
         for f in a['flags']:
-            if f not in UNITTEST_FLAGS + ['-1', '--tagged', '-0',
-                                          '--istagged', '-1v', '-v1', '-1W',
-                                          '-01']:
+            if f not in UNITTEST_FLAGS + ['--tagged', '--istagged'] and not (
+                    re.match(r'^-[vqfb10W]{1,4}$', f)
+                    and len(set(f[1:])) == len(f) - 1
+                    and any(ch in f for ch in '10W')):
                 return False
         if a['tail'] == ['-W'] and a['names']:
             return False
@@ -194,9 +210,8 @@ def model(desc, argv):
         return c['class_tag'] or (c['base'] is not None
                                   and class_tagged(c['base']))
     flags = argv['flags']
-    tagged = any(f in ('-1', '--tagged', '-1v', '-v1', '-1W', '-01')
-                 for f in flags)
-    check = any(f in ('-0', '--istagged', '-01') for f in flags)
+    tagged = any(tdda_flag(f)[0] for f in flags if tdda_flag(f))
+    check = any(tdda_flag(f)[1] for f in flags if tdda_flag(f))
     selected = argv['names'] or [c['name'] for c in desc['classes']]
     all_tests, tag_tests, listed = [], [], []
     for cname in selected:
@@ -216,19 +231,28 @@ def model(desc, argv):
     return {'mode': 'run', 'executed': sorted(all_tests), 'listed': None}
 
 
-TDDA_FLAGS = {'-1': '', '--tagged': None, '-0': '', '--istagged': None,
-              '-1v': '-v', '-v1': '-v', '-1W': '', '-01': ''}
+def tdda_flag(f):
+    """None for an argument tdda does not consume; else (tagged, check,
+    what is left of the argument for unittest or None)."""
+    if f == '--tagged':
+        return (True, False, None)
+    if f == '--istagged':
+        return (False, True, None)
+    if f.startswith('-') and not f.startswith('--') and any(
+            ch in f[1:] for ch in '10W'):
+        rest = ''.join(ch for ch in f[1:] if ch not in '10W')
+        return ('1' in f, '0' in f, ('-' + rest) if rest else None)
+    return None
 
 
 def plain_argv(argv):
     out = []
     for f in argv['flags']:
-        if f in TDDA_FLAGS:
-            r = TDDA_FLAGS[f]
-            if r:
-                out.append(r)
-        else:
+        t = tdda_flag(f)
+        if t is None:
             out.append(f)
+        elif t[2]:
+            out.append(t[2])
     return out + list(argv['names'])
 
 
@@ -322,7 +346,7 @@ def run(case, ctx):
     ntag = sum(len(c['tagged_methods']) + (1 if c['class_tag'] else 0)
                for c in desc['classes'])
     nmeth = sum(len(c['methods']) for c in desc['classes'])
-    has_tdda = any(f in TDDA_FLAGS for f in argv['flags'])
+    has_tdda = any(tdda_flag(f) for f in argv['flags'])
     others = len(argv['flags']) + len(argv['names']) + len(argv['tail'])
     out.nontrivial = (0 < ntag and exp['executed'] != model(
         desc, dict(argv, flags=[]))['executed'] or exp['mode'] == 'list'
@@ -334,8 +358,10 @@ def run(case, ctx):
     if argv['tail']:
         out.label('write-option')
     for f in argv['flags']:
-        if f in ('-1v', '-v1', '-1W', '-01'):
+        if tdda_flag(f) and not f.startswith('--') and len(f) > 2:
             out.label('cluster')
+            if len(f) > 3 and f[1] not in '10W' and f[-1] not in '10W':
+                out.label('cluster:tdda-letter-inside')
 
     spec = importlib.util.spec_from_file_location(modname, modpath)
     mod = importlib.util.module_from_spec(spec)
